@@ -16,7 +16,7 @@ Lemma in_all_rows r : In r all_rows.
 Proof. destruct r as [[h w]|]; [right; apply in_map, in_prod; [apply in_all_has | apply in_all_wants] | left; reflexivity]. Qed.
 Lemma in_all_items i : In i all_items.
 Proof.
-  destruct i as [a b c d p t g r]. unfold all_items.
+  destruct i as [a b c d p t g r u]. unfold all_items.
   apply in_flat_map. exists a. split; [apply in_all_has|].
   apply in_flat_map. exists b. split; [apply in_all_obytes|].
   apply in_flat_map. exists c. split; [apply in_all_rows|].
@@ -24,7 +24,8 @@ Proof.
   apply in_flat_map. exists p. split; [apply in_all_bool|].
   apply in_flat_map. exists t. split; [apply in_all_bool|].
   apply in_flat_map. exists g. split; [apply in_all_bool|].
-  apply in_map_iff. exists r. split; [reflexivity | apply in_all_rstate].
+  apply in_flat_map. exists r. split; [apply in_all_rstate|].
+  apply in_map_iff. exists u. split; [reflexivity | apply in_all_bool].
 Qed.
 Lemma in_all_leftover l : In l all_leftover. Proof. destruct l; cbn; tauto. Qed.
 Lemma in_all_beh b : In b all_beh.
@@ -89,7 +90,7 @@ Definition simple_ok (l : list mop) (i : item) : bool := forallb (fun k => good_
 Definition f_simple (i : item) : bool := if safe i then
    simple_ok (check_src_script i) i && simple_ok (check_dst_script i) i && simple_ok [ReqSet Cancelled] i && simple_ok [] i
    && (if already_in_group (dst_state i) then true else simple_ok mark_suspect_script i)
-   && (if wants_eqb (wants_of i) WN then simple_ok (delete_script i) i else true) else true.
+   && (if wants_eqb (wants_of i) WN then simple_ok (delete_script i) i else true) && simple_ok [PhRemove] i else true.
 Lemma chk_simple_true : forallb f_simple all_items = true. Proof. vm_cast_no_check (eq_refl true). Qed.
 
 (* the dispatch conditions under which a task is queued *)
@@ -99,6 +100,7 @@ Definition task_pre (t : task) (i : item) : bool :=
 Lemma task_crash_good e b i t k : safe i = true -> task_pre t i = true -> good_after i (crash k (task_script e b i t) i) = true.
 Proof.
   intros Hs Hp. pose proof (fa f_simple all_items i chk_simple_true (in_all_items i)) as H. unfold f_simple in H. rewrite Hs in H.
+  apply andb_true_iff in H as [H Htidy].
   apply andb_true_iff in H as [H Hdel]. apply andb_true_iff in H as [H Hmark]. apply andb_true_iff in H as [H Hnil].
   apply andb_true_iff in H as [H Hcancel]. apply andb_true_iff in H as [Hcs Hcd].
   assert (S : forall l, length l < 3 -> simple_ok l i = true -> good_after i (crash k l i) = true)
@@ -116,6 +118,7 @@ Proof.
       * apply S; [cbn; lia | exact Hmark].
       * unfold pull_gate. destruct (gate_ok e); [apply pull_crash_good; assumption | apply S; [cbn; lia | exact Hnil]].
   - unfold pull_gate. destruct (gate_ok e); [apply pull_crash_good; assumption | apply S; [cbn; lia | exact Hnil]].
+  - destruct (ph i); apply S; [cbn; lia | exact Htidy | cbn; lia | exact Hnil].
 Qed.
 
 (* ---- C09: recovery ---- *)
@@ -135,6 +138,16 @@ Proof.
   pose proof (fa _ _ b H1 (in_all_beh b)) as H2. exact (fa _ _ j H2 Hj).
 Qed.
 
+(* ... and the restarted daemon's first idle update has removed the placeholder the killed transfer left behind *)
+Definition f_tidy (i : item) : bool := if pre_transfer i then forallb (fun e => if good_env e then forallb (fun b =>
+   forallb (fun j => negb (ph (rounds 3 e (killed j)))) (all_crash_states e b i)) all_beh else true) all_env else true.
+Lemma chk_tidy_true : forallb f_tidy all_items = true. Proof. vm_cast_no_check (eq_refl true). Qed.
+Lemma no_stale_placeholder i e b j : pre_transfer i = true -> good_env e = true -> In j (all_crash_states e b i) -> ph (rounds 3 e (killed j)) = false.
+Proof.
+  intros Hp He Hj. pose proof (fa f_tidy all_items i chk_tidy_true (in_all_items i)) as H. unfold f_tidy in H. rewrite Hp in H.
+  pose proof (fa _ _ e H (in_all_env e)) as H1. cbn beta in H1. rewrite He in H1.
+  pose proof (fa _ _ b H1 (in_all_beh b)) as H2. apply negb_true_iff. exact (fa _ _ j H2 Hj).
+Qed.
 Definition pre_release (i : item) := safe i && negb (rstate_eqb (req i) Pending) && match dst_row i with Some (h, WN) => negb (is_n h) | _ => false end.
 Definition gone (x : item) := row_eqb (dst_row x) (Some (HN, WN)) && obytes_eqb (dst_disk x) None.
 Definition f_release (i : item) : bool := if pre_release i then forallb (fun e => if dst_usable e && del_ok e then forallb (fun b =>
@@ -173,16 +186,20 @@ Proof.
 Qed.
 Lemma item_eqb_eq a b : item_eqb a b = true -> a = b.
 Proof.
-  destruct a as [a1 a2 a3 a4 a5 a6 a7 a8], b as [b1 b2 b3 b4 b5 b6 b7 b8]. unfold item_eqb. cbn [src_has src_disk dst_row dst_disk ph tmp stg req].
-  intros H. repeat (apply andb_true_iff in H; destruct H as [H ?]).
+  destruct a as [a1 a2 a3 a4 a5 a6 a7 a8 a9], b as [b1 b2 b3 b4 b5 b6 b7 b8 b9]. unfold item_eqb. cbn [src_has src_disk dst_row dst_disk ph tmp stg req due].
+  intros H. repeat (apply andb_true_iff in H as [H ?]).
   assert (a1 = b1) by (destruct a1, b1; try discriminate; reflexivity).
   assert (a2 = b2) by (destruct a2 as [[|]|], b2 as [[|]|]; try discriminate; reflexivity).
-  assert (a3 = b3) by (destruct a3 as [[[] []]|], b3 as [[[] []]|]; try discriminate; reflexivity).
+  assert (a3 = b3).
+  { destruct a3 as [[h w]|], b3 as [[h' w']|]; try discriminate; [|reflexivity].
+    match goal with Hr : row_eqb _ _ = true |- _ => cbn in Hr; apply andb_true_iff in Hr as [Hh Hw] end.
+    destruct h, h'; try discriminate; destruct w, w'; try discriminate; reflexivity. }
   assert (a4 = b4) by (destruct a4 as [[|]|], b4 as [[|]|]; try discriminate; reflexivity).
   assert (a5 = b5) by (destruct a5, b5; try discriminate; reflexivity).
   assert (a6 = b6) by (destruct a6, b6; try discriminate; reflexivity).
   assert (a7 = b7) by (destruct a7, b7; try discriminate; reflexivity).
   assert (a8 = b8) by (destruct a8, b8; try discriminate; reflexivity).
+  assert (a9 = b9) by (destruct a9, b9; try discriminate; reflexivity).
   subst. reflexivity.
 Qed.
 Lemma rounds_plus n m e i : rounds (n + m) e i = rounds m e (rounds n e i).
@@ -193,7 +210,7 @@ Proof. intros H n. apply item_eqb_eq in H. induction n as [|n IH]; cbn [rounds];
 Lemma quiescent_forever e i n : rounds (4 + n) e i = rounds 4 e i.
 Proof. rewrite rounds_plus. apply stays_fixed. apply converges. Qed.
 
-Definition ex_item : item := {| src_has := HY; src_disk := Some Good; dst_row := None; dst_disk := None; ph := false; tmp := false; stg := false; req := Pending |}.
+Definition ex_item : item := {| src_has := HY; src_disk := Some Good; dst_row := None; dst_disk := None; ph := false; tmp := false; stg := false; req := Pending; due := true |}.
 Definition ex_env : env := {| src_active := true; dst_usable := true; gate_ok := true; rt := Tool; te := {| trusted := true; inproc := false |}; del_ok := false |}.
 Lemma example_item : pre_transfer ex_item = true /\ good_env ex_env = true /\ length (all_crash_states ex_env (BFail true LPartial) ex_item) = 8
   /\ dst_row (rounds 1 ex_env ex_item) = Some (HY, WY) /\ req (rounds 1 ex_env ex_item) = Completed.
@@ -243,9 +260,10 @@ Lemma task_script_ind (P : list mop -> Prop) e b i t :
   (already_in_group (dst_state i) = false -> P mark_suspect_script) ->
   (wants_eqb (wants_of i) WN = true -> P (delete_script i)) ->
   (src_has i = HY -> P (pull_script (rt e) (te e) b i)) ->
+  P [PhRemove] ->
   P (task_script e b i t).
 Proof.
-  intros Hp P1 P2 P3 P4 P5 P6 P7.
+  intros Hp P1 P2 P3 P4 P5 P6 P7 P8.
   assert (Hy : match t with TSearchPull | TPullForce => src_has i = HY | _ => True end).
   { destruct t; cbn in Hp |- *; auto; destruct (src_has i); try discriminate; reflexivity. }
   destruct t; cbn [task_script].
@@ -255,6 +273,7 @@ Proof.
   - unfold group_search. destruct (already_in_group (dst_state i)) eqn:Ea; [exact P3|].
     destruct (dst_disk i); [apply P5; reflexivity|]. unfold pull_gate. destruct (gate_ok e); [apply P7, Hy | exact P4].
   - unfold pull_gate. destruct (gate_ok e); [apply P7, Hy | exact P4].
+  - destruct (ph i); [exact P8 | exact P4].
 Qed.
 Definition f_run_pull (i : item) : bool := if safe i && is_y (src_has i) then forallb (fun r => forallb (fun e => forallb (fun b =>
    safe (run (pull_script r e b i) i)) all_beh) all_tenv) all_route else true.
@@ -262,12 +281,13 @@ Lemma chk_run_pull_true : forallb f_run_pull all_items = true. Proof. vm_cast_no
 Definition f_run_simple (i : item) : bool := if safe i then
    safe (run (check_src_script i) i) && safe (run (check_dst_script i) i) && safe (run [ReqSet Cancelled] i) && safe (run [] i)
    && (if already_in_group (dst_state i) then true else safe (run mark_suspect_script i))
-   && (if wants_eqb (wants_of i) WN then safe (run (delete_script i) i) && gone (run (delete_script i) i) else true) else true.
+   && (if wants_eqb (wants_of i) WN then safe (run (delete_script i) i) && gone (run (delete_script i) i) else true) && safe (run [PhRemove] i) else true.
 Lemma chk_run_simple_true : forallb f_run_simple all_items = true. Proof. vm_cast_no_check (eq_refl true). Qed.
 Lemma task_run_safe e b i t : safe i = true -> task_pre t i = true -> safe (run_task e b i t) = true.
 Proof.
   intros Hs Hp. unfold run_task.
   pose proof (fa f_run_simple all_items i chk_run_simple_true (in_all_items i)) as H. unfold f_run_simple in H. rewrite Hs in H.
+  apply andb_true_iff in H as [H Htidy].
   apply andb_true_iff in H as [H Hdel]. apply andb_true_iff in H as [H Hmark]. apply andb_true_iff in H as [H Hnil].
   apply andb_true_iff in H as [H Hcancel]. apply andb_true_iff in H as [Hcs Hcd].
   apply (task_script_ind (fun l => safe (run l i) = true) e b i t Hp); auto.
@@ -280,5 +300,5 @@ Qed.
 Lemma delete_leaves_nothing i : safe i = true -> wants_of i = WN -> gone (run (delete_script i) i) = true.
 Proof.
   intros Hs Hw. pose proof (fa f_run_simple all_items i chk_run_simple_true (in_all_items i)) as H. unfold f_run_simple in H. rewrite Hs, Hw in H.
-  cbn [wants_eqb] in H. apply andb_true_iff in H as [_ H]. apply andb_true_iff in H. apply H.
+  cbn [wants_eqb] in H. apply andb_true_iff in H as [H _]. apply andb_true_iff in H as [_ H]. apply andb_true_iff in H. apply H.
 Qed.
